@@ -282,4 +282,57 @@ fn raster_fragments_zdiv() {
     assert!(k == n);
 }
 
+// @ob props=C04,C02 tier=thorough kind=B cfg=core-std timeout=7200
+// @fn tri_fill ; scan ; <ScanlineIter<V> as Iterator>::next
+// @bound every triangle (degenerate ones included, all 5^6 vertex triples, hence all vertex orders) on the half-pixel lattice [0,2]^2, 2x2 pixels, V = ()
+// @clause coverage against an exact integer edge-function oracle: a pixel centre strictly inside the triangle is covered exactly once; a centre strictly outside and not on the segment of any edge is not covered; centres on an edge segment (distance 0, the only lattice points within the property's 0.001 px band) are exempt; scanlines arrive in strictly increasing y, stay inside the 2x2 grid, and their x-range length equals the fragment count; the verdict is symmetric in the vertex order
+#[kani::proof]
+#[kani::unwind(8)]
+fn raster_tri_fill_lattice() {
+    let q: [u8; 6] = kani::any();
+    let mut i = 0;
+    while i < 6 {
+        kani::assume(q[i] <= 4);
+        i += 1;
+    }
+    let vtx = |k: usize| crate::geom::vertex(pt3(q[2 * k] as F * 0.5, q[2 * k + 1] as F * 0.5, 1.0), ());
+    let mut cov = [[0u8; 2]; 2];
+    let mut last_y: i32 = -1;
+    let mut ok = true;
+    tri_fill([vtx(0), vtx(1), vtx(2)], |sl: Scanline<()>| {
+        ok = ok && (sl.y as i32) > last_y && sl.y < 2 && sl.xs.end <= 2;
+        last_y = sl.y as i32;
+        let len = if sl.xs.end >= sl.xs.start { sl.xs.end - sl.xs.start } else { 0 };
+        ok = ok && sl.vs.n == Some(len as u32);
+        let mut x = sl.xs.start;
+        while x < sl.xs.end && x < 2 && sl.y < 2 {
+            cov[sl.y][x] += 1;
+            x += 1;
+        }
+    });
+    kani::cover!(cov[0][0] == 1 && cov[1][1] == 1);
+    // oracle in doubled integer coordinates: vertices q, pixel centre (2x+1, 2y+1)
+    let p = |k: usize| (q[2 * k] as i32, q[2 * k + 1] as i32);
+    let edge = |a: (i32, i32), b: (i32, i32), c: (i32, i32)| (b.0 - a.0) * (c.1 - a.1) - (b.1 - a.1) * (c.0 - a.0);
+    let on_seg = |a: (i32, i32), b: (i32, i32), c: (i32, i32)| {
+        edge(a, b, c) == 0 && c.0 >= a.0.min(b.0) && c.0 <= a.0.max(b.0) && c.1 >= a.1.min(b.1) && c.1 <= a.1.max(b.1)
+    };
+    let mut py = 0;
+    while py < 2 {
+        let mut px = 0;
+        while px < 2 {
+            let c = (2 * px as i32 + 1, 2 * py as i32 + 1);
+            let (e0, e1, e2) = (edge(p(0), p(1), c), edge(p(1), p(2), c), edge(p(2), p(0), c));
+            let exempt = on_seg(p(0), p(1), c) || on_seg(p(1), p(2), c) || on_seg(p(2), p(0), c);
+            let inside = (e0 > 0 && e1 > 0 && e2 > 0) || (e0 < 0 && e1 < 0 && e2 < 0);
+            if !exempt {
+                ok = ok && cov[py][px] == if inside { 1 } else { 0 };
+            }
+            px += 1;
+        }
+        py += 1;
+    }
+    assert!(ok);
+}
+
 include!("gen/dispatch_raster.rs");
